@@ -183,7 +183,7 @@ contract(
     params={},
     assumed=True, verify=False,
     bounded=("bounded/checkout_ws.py", 400, 6000),
-    props=["C05"],
+    props=["C05", "C07"],
     doc="[bounded only] whole checkout(): workspace snapshot before/after, every lost byte string must be recoverable from the cache",
 )
 
